@@ -142,8 +142,8 @@ theorem covers_map_eq {wk : K} {l m : List (Found K)} (hm : IsMapOf l m) (hcl : 
   rw [h1, h1, h3]
 
 theorem covers_send {wk : K} {ks : List K} {u : K} :
-    covers wk (sendResp ks).found u = true ↔ (u ∈ ks ∨ wk ∈ ks) := by
-  have hm : u ∉ mentioned (sendResp ks).found := by
+    covers wk (sendResp (N := N) ks).found u = true ↔ (u ∈ ks ∨ wk ∈ ks) := by
+  have hm : u ∉ mentioned (sendResp (N := N) ks).found := by
     intro h
     rcases mem_mentioned.mp h with h | h
     · obtain ⟨f, hf, hk⟩ := exclK_iff.mp h
@@ -155,7 +155,7 @@ theorem covers_send {wk : K} {ks : List K} {u : K} :
       obtain ⟨k, _, rfl⟩ := hf
       cases hs
   rw [covers_unmentioned hm]
-  have : ∀ x, hasK (sendResp ks).found x = true ↔ x ∈ ks := by
+  have : ∀ x, hasK (sendResp (N := N) ks).found x = true ↔ x ∈ ks := by
     intro x
     rw [hasK_iff]
     simp only [sendResp, List.mem_map]
